@@ -11,7 +11,8 @@ RULE = ('cases = stream lengths 10^1..10^3 (quick; 10^4, 10^5 thorough) x pipeli
         'first-run checkpoint); the real order of source pulls and deliveries is recorded; non-trivial = n larger than '
         'the inference sample; distinct = (n, pipeline)'
         '; round 4: dump steps in every file format (csv, json, excel, xlsx)'
-        '; round 8: sources that know their length (__len__) and still yield on demand')
+        '; round 8: sources that know their length (__len__) and still yield on demand'
+        '; round 9: unique and required constraints set on the way')
 TRUSTED = ['Coq 8.16.1 kernel + vm_compute', 'harness/tracelib.py probes (counting source, logging steps, terminal consumer) and Gallina printer',
            'Python generator laziness itself is modelled (function composition on event lists), validated by the trace correspondence',
            'memory use is represented only by the number of rows read ahead']
